@@ -267,10 +267,16 @@ def gen_fenum(r, shs, lines, switch, nfiles):
         f = r.randrange(nfiles)
         switch(f)
         sh = shs[f]
+        # an enumeration is only interesting with two or more annotations of a kind
+        for k, t, lab in (("fid", 2, True), ("fds", 3, False)):
+            while sh.count(t) < 2 and r.random() < 0.85:
+                lines.append("dfadd%s %s" % (k, hexs(gen_text(r, lab))))
+                sh.anns.append(dict(type=t, target=None, written=1))
         if r.random() < 0.35:
             lines.append(r.choice(["dfgetfids", "dfgetfdss"]))
-        kinds = r.choice([["fid"], ["fds"], ["fid", "fds"], ["fid", "fds"], ["fds", "fid"]])
-        uselen = {k: r.random() < 0.55 for k in ("fid", "fds")}
+        kinds = r.choice([["fid"], ["fds"], ["fid", "fds"], ["fid", "fds"], ["fds", "fid"], ["fds", "fid"]])
+        ul = r.choice([(1, 1), (1, 1), (0, 0), (1, 0), (0, 1)])
+        uselen = {"fid": bool(ul[0]), "fds": bool(ul[1])}
         started = {k: False for k in kinds}
         n = {"fid": sh.count(2), "fds": sh.count(3)}
         steps = r.randrange(2, 2 * (max(n.values()) + 2))
@@ -357,6 +363,10 @@ def gen_history(r, name, malformed=False):
         for i in range(min(nn, 6)):
             lines.append("dffid %d 400" % (1 if i == 0 else 0))
             lines.append("dffds %d 400" % (1 if i == 0 else 0))
+        for i in range(min(nn, 6)):                      # and with the length calls
+            for k in ("fid", "fds"):
+                lines.append("df%slen %d" % (k, 1 if i == 0 else 0))
+                lines.append("df%s %d 400" % (k, 1 if i == 0 else 0))
     for _ in range(2 if nfiles > 1 else 1):
         for f in range(nfiles):
             switch(f)
